@@ -19,6 +19,9 @@ exact dyadics `mantissa exp2`; `inf 0`, `-inf 0`, `nan 0` for the non-finite one
         with the closed forms over `Rat`: |x_k - X_k| <= X_k ((1 + eps)^(k+1) - 1), eps = 2^-24 + 2^-53 + 2^-77
         (one `float(double(a*b))` per update and one for the initial value; valid while every value is a
         normal float, otherwise `bound-skipped`).
+  gmulfd a b | gdivd a b | ggap lb ub             -> r <mantissa exp2 | inf 0 | -inf 0>
+        the rounding model `Rounding.ieee` itself against the FPU: `float(double(a) * b)` for a float `a`
+        and a double `b`; `a / b` in doubles; `(ub - lb) / ub` in floats
 -/
 namespace Driver.GL
 open ColoVerif.GlobalLoop Driver
@@ -237,6 +240,37 @@ def replay (lg : Log) (seq how : String) : String :=
 def driftLine (p : Params) (ks : List String) : String :=
   "drift" ++ String.join (ks.map fun k => s!" {k}:{if driftOutOfBox p (int! k).toNat then 1 else 0}")
 
+/-! ### the rounding model against the FPU -/
+
+def stripTwos : Nat → Int → Int → Int × Int
+  | 0, m, e => (m, e)
+  | fuel + 1, m, e => if m % 2 = 0 && m != 0 then stripTwos fuel (m / 2) (e + 1) else (m, e)
+
+/-- a dyadic rational as `mantissa exp2` with an odd mantissa (the format of `vc::exactDouble`) -/
+def showDyadic (q : Rat) : String :=
+  if q = 0 then "0 0" else
+  let k := q.den.log2
+  if q.den != 2 ^ k then s!"notdyadic {q.num}/{q.den}" else
+  let (m, e) := stripTwos 2200 q.num (-(k : Int))
+  s!"{m} {e}"
+
+/-- `limit`: `2^128` for a float, `2^1024` for a double -/
+def showRounded (limit : Rat) (q : Rat) : String :=
+  if limit ≤ q then "inf 0" else if q ≤ -limit then "-inf 0" else showDyadic q
+
+def two1024 : Rat := ((2 ^ 1024 : Nat) : Rat)
+
+def roundOps (ws : List String) : Option String :=
+  match ws with
+  | [op, am, ae, bm, be] =>
+    let a := (parseFV am ae).get
+    let b := (parseFV bm be).get
+    if op == "gmulfd" then some ("r " ++ showRounded two128 (mulFD Rounding.ieee a b))
+    else if op == "gdivd" then some ("r " ++ showRounded two1024 (Rounding.ieee.d (a / b)))
+    else if op == "ggap" then some ("r " ++ showRounded two128 (Rounding.ieee.f (Rounding.ieee.f (b - a) / b)))
+    else none
+  | _ => none
+
 /-- returns `none` when the line is not one of this module's ops -/
 def step (lg : Log) (ws : List String) : Option (Log × List String) :=
   match ws with
@@ -255,6 +289,6 @@ def step (lg : Log) (ws : List String) : Option (Log × List String) :=
   | "gexit" :: st :: why :: rest => some ({ lg with exit := some (int! st, int! why, fvs rest) }, [])
   | ["gend", seq, how] => some ({ params := lg.params }, [replay lg seq how])
   | ["gend", how] => some ({ params := lg.params }, [replay lg "" how])
-  | _ => none
+  | _ => (roundOps ws).map fun l => (lg, [l])
 
 end Driver.GL
